@@ -1,5 +1,5 @@
 (* C09 driver.  Input lines (TAB-separated):
-     C <cmd> <env> <args>  -> "<in-domain T/F>\t<classes>\t<model call>\t<serialised line>"
+     C <cmd> <env> <args>  -> "<in-domain T/F>\t<classes>\t<model call>\t<serialised line>\t<all arguments safe_simple T/F>"
    env: "-" or space-separated name:value.
    classes: "-" or letters N Q H D B P (some argument is in the class), E (first argument), W (last argument);
             in-domain = is_cmd cmd && forallb safe args && head_ok args && last_ok args, the hypotheses of
@@ -30,5 +30,5 @@ let () = iter_lines (fun line ->
       let r = match eval_call (env_of_field env) (cmd :: a) with
         | Call (_, _, command, bound) -> if command = cmd then "A" ^ field_of_list bound else "X" ^ field_of_str command
         | NoCall -> "N" | CallErr _ -> "E" | CallPanic -> "P" in
-      Printf.printf "%s\t%s\t%s\t%s\n" (b2s dom) (classes a) r (field_of_str (serialise (cmd :: a)))
+      Printf.printf "%s\t%s\t%s\t%s\t%s\n" (b2s dom) (classes a) r (field_of_str (serialise (cmd :: a))) (b2s (forallb safe_simple a))
   | _ -> print_endline "BADLINE")
